@@ -34,7 +34,7 @@ where
     F: FnOnce() -> Fut,
     Fut: Future<Output = T>,
 {
-    let rt = simnet::runtime(sim.content_seed());
+    let rt = simnet::runtime(sim, sim.content_seed());
     let out = rt.block_on(async {
         let t0 = tokio::time::Instant::now();
         let r = tokio::time::timeout(horizon, f()).await;
